@@ -92,7 +92,7 @@ class C18(Prop):
     title = "Healing and tool loops stop within their budgets against any generator"
     fixed_prefix = 0
     quick_budget = 2500
-    thorough_budget = 120000
+    thorough_budget = 80000
     all_branches = ["heal:first", "heal:healed", "heal:degraded", "heal:degraded0", "heal:raise",
                     "swarm:success", "swarm:exhausted", "swarm:none", "swarm:raise", "swarm:collapse",
                     "swarm:steplimit", "tool:plain", "tool:final", "tool:noauto", "tool:answered", "tool:raise"]
